@@ -683,6 +683,9 @@ class Engine:
             iz = to_z3(i)
             self.oblige("index-in-bounds", s, z3.And(iz >= -n, iz < n), kind="safety")
             return [(z3.SubString(v, z3.If(iz < 0, n + iz, iz), 1), s)]
+        if v is None:
+            self.raise_(ExcVal("TypeError", ("'NoneType' object is not subscriptable",)), s)
+            return []
         raise Unsupported(f"subscript of {v!r}")
 
     def case_index(self, seq, i, s):
@@ -1152,6 +1155,23 @@ class Engine:
         return outs
 
     ev_ListComp = ev_GeneratorExp
+
+    def ev_SetComp(self, e, st):
+        """{elt for x in src}: a concrete source gives a frozenset of the (hashable) element values; a symbolic sequence gives a
+        symbolic collection that may be iterated / splatted / tested for emptiness, but whose size is only known to be between
+        min(1, n) and n (duplicates collapse) - len() of it is out of the subset"""
+        outs = []
+        for seq, s in self.ev_GeneratorExp(e, st):
+            if isinstance(seq, tuple):
+                try:
+                    outs.append((frozenset(seq), s))
+                except TypeError:
+                    raise Unsupported("set comprehension over unhashable symbolic values")
+            elif isinstance(seq, SeqV):
+                outs.append((SeqV(seq.length, seq.elem, "setcomp"), s))
+            else:
+                raise Unsupported("set comprehension")
+        return outs
 
     def comprehend_split(self, elt, gen, src, s):
         """filter conditions that depend on symbolic values: one path per combination of kept / dropped elements (concrete source)"""
@@ -2023,6 +2043,8 @@ def _b_minmax(which):
 def _b_len(eng, s, args, kw):
     v = args[0]
     if isinstance(v, SeqV):
+        if v.kind == "setcomp":
+            raise Unsupported("len of a set built from a symbolic sequence")
         return [(v.length, s)]
     if isinstance(v, Ref):
         h = s.H(v)
